@@ -155,11 +155,10 @@ def run_sharded(exe, lines, workdir, tag, extra_args=(), env=None, shards=NCPU, 
     """Run a line-protocol program over `lines` split in contiguous shards; returns dict id->rest."""
     os.makedirs(workdir, exist_ok=True)
     n = len(lines)
-    shards = max(1, min(shards, (n + 199) // 200))
-    per = (n + shards - 1) // shards
+    shards = max(1, min(shards, (n + 49) // 50))
     jobs = []
     for s in range(shards):
-        chunk = lines[s * per:(s + 1) * per]
+        chunk = lines[s::shards]          # round-robin: expensive neighbours end up in different shards
         if not chunk: continue
         fin = os.path.join(workdir, '%s.%d.in' % (tag, s))
         fout = os.path.join(workdir, '%s.%d.out' % (tag, s))
@@ -193,12 +192,16 @@ def differential(cases, zdrv, workdir, files_env=None, timeout_s=20, sig_of=None
     """cases: list of Case (op = 'OP args...').  Returns per-case records:
        {id, op, impl, model, prop(True/False/None), agree}"""
     lines = ['%s %s' % (c.id, c.op) for c in cases]
+    t_a = now()
     impl = run_sharded(zdrv, lines, workdir, 'impl', extra_args=[str(timeout_s)], env=files_env)
+    t_b = now()
     jl = []
     for c in cases:
         r = impl.get(c.id, 'MISSING')
         jl.append('%s %s ||| %s' % (c.id, c.op, r))
     model = run_sharded(DRV, jl, workdir, 'model')
+    TIMING['impl_s'] = TIMING.get('impl_s', 0) + (t_b - t_a)
+    TIMING['model_s'] = TIMING.get('model_s', 0) + (now() - t_b)
     recs = []
     for c in cases:
         i = impl.get(c.id, 'MISSING')
@@ -220,6 +223,7 @@ def load_known(prop):
     if not os.path.exists(p): return []
     return [k for k in json.load(open(p)) if k.get('property') == prop and k.get('status') == 'open']
 
+TIMING = {}
 CURRENT_WORK = None     # scratch directory of the running check; replaced by @WORK@ in replay files
 REPLAY_FILES = None     # callable(record) -> {name: bytes} of the work files a case needs (optional)
 
@@ -313,7 +317,8 @@ def finish(prop, tier, seed, t0, proof, recs, errs, known_sigs, rule, samples, d
         disagreements_checked=len(disagree),
         property_evaluated_on_impl=sum(1 for r in recs if r['prop'] is not None),
         property_failures=len(prop_fail), known_findings_seen=sorted(known_seen),
-        distribution=distribution, proof_wall_s=round(proof.get('wall_s', 0), 1))
+        distribution=distribution, proof_wall_s=round(proof.get('wall_s', 0), 1),
+        impl_wall_s=round(TIMING.get('impl_s', 0), 1), model_wall_s=round(TIMING.get('model_s', 0), 1))
     if extra_cov: cov.update(extra_cov)
     write_evidence(prop, tier, seed, cov, assumptions, now() - t0, len(violations))
     print('%s %s: proof %d/%d obligations, %d cases (%d agree with model, %d property failures, %d known), %.1fs' % (
